@@ -1111,8 +1111,15 @@ class Fxp():
         return val
 
     def _round(self, val, method='floor'):
-        if isinstance(val, int) or np.issubdtype(np.array(val).dtype, np.integer) or np.issubdtype(np.array(val).dtype, np.object_):
+        if isinstance(val, int) or np.issubdtype(np.array(val).dtype, np.integer):
             rval = val
+        elif np.issubdtype(np.array(val).dtype, np.object_):
+            _val = np.array(val)
+            if _val.size > 0 and isinstance(_val.item(0), float):
+                # object array of python floats (extended precision path): round them like any other float
+                rval = self._round(_val.astype(float), method=method).astype(object)
+            else:
+                rval = val
         elif method == 'around':
             rval = np.around(val)
         elif method == 'floor':
